@@ -132,6 +132,7 @@ template <class C, class E> static void run_kind(const char* name, Place place, 
                try { h.evalArguments(av.argc(), av.argv()); } catch (const std::exception& e) { threw = true; what = e.what(); } catch (...) { threw = true; what = "non-std exception"; }
                ++g_evals; vf::heartbeat();
                std::vector<E> got = to_list(dest); if (hashed) std::sort(got.begin(), got.end());
+               vf::outcome(threw ? std::string(name) + " refuses" : std::string(name) + " " + show(got));
                if (vf::verbose()) printf("  %s %s init %s line %s -> %s %s %s (fold: %s %s)\n", name, opt_text(o).c_str(), show(initial).c_str(), hc::words_text(words).c_str(), threw ? "throws" : "returns", what.c_str(), show(got).c_str(), f.fail ? "must refuse:" : "", f.fail ? f.why.c_str() : show(f.content).c_str());
                std::string ctx = std::string(name) + " " + opt_text(o) + " initial " + show(initial) + " line " + hc::words_text(words);
                std::string sig = std::string(name) + "|" + (o.sort ? "sort" : "") + (o.unique ? "+unique" : "") + (o.clear ? "+clear" : "") + (o.check ? "+check" : "") + (fv ? "+freevalues" : "") + (init ? "+initial" : "");
@@ -164,7 +165,7 @@ template <class Def, class Read> static void run_fixed(const char* name, const s
                define(words, clear != 0, uniq, init, got, threw, what, applicable);
                if (!applicable) { ++g_skipped_option; continue; }
                expect(seq, clear != 0, uniq, init, exp, must_throw);
-               ++g_evals; vf::heartbeat();
+               ++g_evals; vf::heartbeat(); vf::outcome(threw ? std::string(name) + " refuses" : std::string(name) + " " + got);
                if (vf::verbose()) printf("  %s clear=%d unique=%d init=%d line %s -> %s %s %s (expected %s%s)\n", name, clear, uniq, init, hc::words_text(words).c_str(), threw ? "throws" : "returns", what.c_str(), got.c_str(), must_throw ? "refusal " : "", exp.c_str());
                std::string ctx = std::string(name) + (clear ? " clear" : "") + (uniq == 1 ? " unique" : uniq == 2 ? " unique(error)" : "") + " init" + std::to_string(init) + " line " + hc::words_text(words);
                std::string sig = std::string(name) + "|" + (uniq ? "unique" : "") + (clear ? "+clear" : "") + (init ? "+initial" : "") + (g_fixed_sort ? "+sort" : "");
